@@ -49,7 +49,9 @@ pub fn fault_enum(kind: u8, extra: u64) {
                 ConnectOutcome::Failed(_) => continue,
                 ConnectOutcome::Up(mut conn) => {
                     let end = run::run_connection(&mut conn, &mut steps);
-                    if matches!(end, ConnEnd::OutOfSteps) || ci + 1 == max_conns {
+                    // (a connection the simulated application has given up - after a cancelled
+                    // QoS 0 publish, which is documented as not cancel-safe - is not used again)
+                    if matches!(end, ConnEnd::OutOfSteps) || (ci + 1 == max_conns && !matches!(end, ConnEnd::Drop | ConnEnd::Forget)) {
                         if conn.is_connected() {
                             live_conn = Some(());
                             // ---- the operation under test, with the fault at I/O call `idx`
@@ -352,14 +354,22 @@ fn battery(conn: &mut Conn<'_, '_>) -> Battery {
 
 fn quiescent_battery(session: &mut minimq::Session<'_>) -> Option<Battery> {
     with(|w| w.benign = true);
-    for _ in 0..3 {
+    for attempt in 0..3 {
         if let ConnectOutcome::Up(mut conn) = do_connect(session, false) {
             let ok = run::benign_drain(&mut conn);
             let all_done = with(|w| {
                 let ep = w.epoch;
                 !w.ids_ambiguous && !w.reqs.iter().any(|r| r.epoch == ep && !r.invalidated && r.accept != world::Accept::NotAccepted && r.qos > 0 && !matches!(r.phase, Phase::Done(_)))
             });
-            if ok && all_done && conn.session().is_publish_quiescent() && conn.can_publish(QoS::AtLeastOnce) {
+            // "After everything has been acknowledged": the ledger decides that, not the session.
+            // A session that still is not quiescent on the third prompt connection although every
+            // accepted request has had its final acknowledgement is probed all the same - what it
+            // still holds shows up as lost capacity.
+            let settled = ok && conn.session().is_publish_quiescent() && conn.can_publish(QoS::AtLeastOnce);
+            if all_done && conn.is_connected() && (settled || attempt == 2) {
+                if !settled {
+                    with(|w| w.probe("battery_on_session_that_does_not_quiesce"));
+                }
                 let b = battery(&mut conn);
                 with(|w| close_conn(w, "battery done"));
                 return Some(b);
